@@ -472,6 +472,17 @@ func (x *Exec) groundAxioms(seen map[*Term]bool) []*Term {
 			out = append(out, b.mk("=", SBool, "", nil, b.App("tag!", SInt, t), tagID(t.Name)))
 			out = append(out, b.mk("=", SBool, "", nil, b.App("inv1!"+t.Name, SInt, t), a))
 			out = append(out, b.mk("=", SBool, "", nil, b.App("inv2!"+t.Name, SInt, t), i))
+		case t.Op == "select" && t.Sort == SInt:
+			// what the simplifier knows about the range of a memory cell (by the element type of
+			// its heap) is given to the solver too, for the ground cells that occur
+			if os.Getenv("GVC_DBGB") != "" {
+				lo, hi := b.Bounds(t)
+				fmt.Fprintln(os.Stderr, "DBGB", b.Show(t), lo, hi)
+			}
+			if lo, hi := b.Bounds(t); lo != nil && hi != nil && lo.Sign() >= 0 && hi.BitLen() <= 64 {
+				out = append(out, b.mk("<=", SBool, "", nil, b.IntB(lo), t))
+				out = append(out, b.mk("<=", SBool, "", nil, t, b.IntB(hi)))
+			}
 		case t.Op == "const" && strings.HasPrefix(t.Name, "glob:"):
 			globs = append(globs, t)
 			out = append(out, b.mk("<", SBool, "", nil, b.Int(0), t))
